@@ -24,6 +24,8 @@ from harness.wire import RecordingWriter
 
 PROP = "C16"
 LEVEL = "fault_enumeration"
+TECHNIQUE = 'offline history checker over client call/return events and device receive/reply events (one monotonic clock); PTY Marlin and TCP Grbl device models; strict and counting synchrony predicates; yield injection'
+LEVEL_TEXT = 'Error replies enumerated at every position of short sequences on both transports, plus random behaviours (latency, noise, reports, async errors, loss, short timeouts). Listed known finding excepted.'
 RULE = ("statement sequences (3-12 statements produced by GCodeBuilder) written through SerialWriter (PTY "
         "Marlin model) and SocketWriter (loopback TCP Grbl model); per-statement ack latency classes up to "
         "400 ms, unsolicited status lines and position/temperature reports before the ack, error replies "
